@@ -14,6 +14,7 @@ import (
 	"verif/harness/concfam"
 	"verif/harness/emlfam"
 	"verif/harness/lifefam"
+	"verif/harness/smtpfam"
 	"verif/harness/linefam"
 	"verif/harness/mimefam"
 	"verif/harness/pipeconn"
@@ -208,6 +209,17 @@ func runOne(family string, j job, seed int64) result {
 			s.ID = fmt.Sprintf("L%06d", j.idx)
 		}
 		rn := &lifefam.Runner{Sc: s, Rec: rec.New(), T: j.idx}
+		rn.Run()
+		return result{idx: j.idx, lines: rn.Rec.Lines(), infra: rn.Infra}
+	case "smtp":
+		var s smtpfam.Scenario
+		if err := json.Unmarshal(j.line, &s); err != nil {
+			return result{idx: j.idx, infra: err}
+		}
+		if s.ID == "" {
+			s.ID = fmt.Sprintf("P%06d", j.idx)
+		}
+		rn := &smtpfam.Runner{Sc: s, Rec: rec.New(), T: j.idx, TLSDir: session.TLSDir}
 		rn.Run()
 		return result{idx: j.idx, lines: rn.Rec.Lines(), infra: rn.Infra}
 	case "eml":
